@@ -410,3 +410,146 @@ def case_flat(draw, max_extent=6, **kw):
     case["flat"] = names
     case.update(rt)
     return case
+
+
+# --------------------------------------------------------------------------
+# D_affine: integer-affine index expressions (C04)
+
+
+def _ie(*terms):
+    return [[c, v] for c, v in terms]
+
+
+@st.composite
+def case_affine(draw, max_extent=6, coeffs=(1, 1, 2, 2, 3, 4), allow_partition=True):
+    """
+    templates: conv1d (stride/dilation), conv2d, three-variable sum, subsampling, renaming;
+    optional extra plain ranks (batch N in I and O, channel M in F and O, reduction C in I and F).
+    returns a case with shape-consistent extents.
+    """
+    tmpl = draw(st.sampled_from(["conv1d", "conv1d", "conv1d", "conv2d", "sum3", "subsample", "rename"]))
+    ext = {}
+    sizes = {}
+    e = lambda: draw(st.integers(1, max_extent))  # noqa: E731
+    co = lambda: draw(st.sampled_from(coeffs))     # noqa: E731
+    parts = []
+    affine = []      # (tensor rank W, [(coeff, VAR)...]) the equations
+    if tmpl in ("conv1d", "sum3"):
+        a, b = co(), co()
+        extras = draw(subset(["N", "M", "C"])) if draw(st.booleans()) else []
+        ext["Q"], ext["S"] = e(), e()
+        terms = [(a, "q"), (b, "s")]
+        if tmpl == "sum3":
+            c = co()
+            ext["P"] = e()
+            terms = [(c, "p")] + terms
+        ext["W"] = sum(cf * (ext[v.upper()] - 1) for cf, v in terms) + 1
+        for x in extras:
+            ext[x] = e()
+        i_idx = [_ie(*terms)]
+        i_decl = ["W"]
+        f_idx, f_decl = [_ie((1, "s"))], ["S"]
+        o_idx = ([_ie((1, "p"))] if tmpl == "sum3" else []) + [_ie((1, "q"))]
+        o_decl = (["P"] if tmpl == "sum3" else []) + ["Q"]
+        if "N" in extras:
+            i_idx.insert(0, _ie((1, "n"))); i_decl.insert(0, "N")
+            o_idx.insert(0, _ie((1, "n"))); o_decl.insert(0, "N")
+        if "M" in extras:
+            f_idx.insert(0, _ie((1, "m"))); f_decl.insert(0, "M")
+            o_idx.append(_ie((1, "m"))); o_decl.append("M")
+        if "C" in extras:
+            i_idx.append(_ie((1, "c"))); i_decl.append("C")
+            f_idx.append(_ie((1, "c"))); f_decl.append("C")
+        decl = [["F", f_decl], ["I", i_decl], ["O", o_decl]]
+        facs = [{"t": "I", "idx": i_idx}, {"t": "F", "idx": f_idx}]
+        if draw(st.booleans()):
+            facs.reverse()
+        expr = {"out": ["O", o_idx], "terms": [{"take": None, "factors": facs}]}
+        affine.append(("W", [(cf, v.upper()) for cf, v in terms]))
+        out_affine_rank, follower = "Q", "W"
+    elif tmpl == "conv2d":
+        a, b = co(), co()
+        for r in "PQRS":
+            ext[r] = e() if r in "PQ" else draw(st.integers(1, 3))
+        ext["H"] = a * (ext["P"] - 1) + (ext["R"] - 1) + 1
+        ext["W"] = b * (ext["Q"] - 1) + (ext["S"] - 1) + 1
+        decl = [["I", ["H", "W"]], ["F", ["R", "S"]], ["O", ["P", "Q"]]]
+        expr = {"out": ["O", [_ie((1, "p")), _ie((1, "q"))]],
+                "terms": [{"take": None, "factors": [
+                    {"t": "I", "idx": [_ie((a, "p"), (1, "r")), _ie((b, "q"), (1, "s"))]},
+                    {"t": "F", "idx": [_ie((1, "r")), _ie((1, "s"))]}]}]}
+        affine.append(("H", [(a, "P"), (1, "R")]))
+        affine.append(("W", [(b, "Q"), (1, "S")]))
+        out_affine_rank, follower = "Q", "W"
+    elif tmpl == "subsample":
+        c = co()
+        ext["M"] = e()
+        ext["K"] = c * (ext["M"] - 1) + 1
+        two = draw(st.booleans())
+        decl = [["A", ["K"]], ["Z", ["M"]]]
+        facs = [{"t": "A", "idx": [_ie((c, "m"))]}]
+        if two:
+            decl.insert(1, ["B", ["M"]])
+            facs.append({"t": "B", "idx": [_ie((1, "m"))]})
+        expr = {"out": ["Z", [_ie((1, "m"))]], "terms": [{"take": None, "factors": facs}]}
+        affine.append(("K", [(c, "M")]))
+        out_affine_rank, follower = "M", "K"
+    else:  # rename: A's rank I is indexed by m
+        ext["M"] = e()
+        ext["I"] = ext["M"]
+        ext["N"] = e()
+        decl = [["A", ["I", "N"]], ["Z", ["M"]]]
+        expr = {"out": ["Z", [_ie((1, "m"))]],
+                "terms": [{"take": None, "factors": [{"t": "A", "idx": [_ie((1, "m")), _ie((1, "n"))]}]}]}
+        affine.append(("I", [(1, "M")]))
+        out_affine_rank, follower = "M", "I"
+    out = expr["out"][0]
+    spec = {"decl": decl, "exprs": [expr], "rank_order": {}, "loop_order": {}, "partitioning": {}, "spacetime": {}, "extra": {}}
+    spec["rank_order"] = draw(rank_orders(decl))
+    # ---- partitioning of the output index rank with the input rank following
+    part_levels = 0
+    if allow_partition and draw(st.integers(0, 2)) == 0:
+        part_levels = draw(st.sampled_from([1, 1, 2]))
+        dirs = []
+        for i in range(part_levels):
+            kind = draw(st.sampled_from(["uniform_shape", "uniform_shape", "nway_shape"]))
+            nm = out_affine_rank + str(part_levels - 1 - i)
+            dirs.append("%s(%s)" % (kind, draw(size_token(nm, 1, ext[out_affine_rank] + 1, sizes))))
+        parts = [[out_affine_rank, dirs], [follower, ["follow(%s)" % out_affine_rank]]]
+        spec["partitioning"] = {out: parts}
+    # ---- loop order: for each equation choose which of its ranks are looped (all but one).
+    # Only a non-output variable may be replaced by the tensor's own rank (replacing an output variable would need a
+    # projection into the output, which the compiler states to be illegal - that family is C18's business).
+    vs = [v.upper() for v in S.expr_vars(expr)]
+    out_vars = [ie[0][1].upper() for ie in expr["out"][1]]
+    if draw(st.integers(0, 5)) > 0:
+        loop = list(vs)
+        for trank, terms in affine:
+            repl = [v for _, v in terms if v not in out_vars]
+            if repl and draw(st.booleans()):
+                loop[loop.index(draw(st.sampled_from(repl)))] = trank
+        # expand partitioned ranks into levels; the follower shares the leader's upper levels, only its bottom level is
+        # looped, placed between the leader's upper levels and the leader's bottom level (rarely after it: F-C04-3)
+        groups = []
+        for r in loop:
+            if part_levels and r == out_affine_rank:
+                lv = levels_of(r, part_levels)
+                if follower in loop:
+                    lv = lv[:-1] + ([lv[-1], follower + "0"] if draw(st.integers(0, 9)) == 0 else [follower + "0", lv[-1]])
+                groups.append(lv)
+            elif part_levels and r == follower:
+                continue
+            else:
+                groups.append([r])
+        if draw(st.booleans()):
+            spec["loop_order"] = {out: draw(interleave(groups))}
+        else:
+            groups = list(draw(st.permutations(groups)))
+            spec["loop_order"] = {out: [x for g in groups for x in g]}
+    rt = draw(runtime(spec, extents=ext))
+    rt["sizes"].update(sizes)
+    case = {"spec": spec, "template": tmpl, "part_levels": part_levels,
+            "affine": [[w, [[c, v] for c, v in terms]] for w, terms in affine],
+            "part_rank": out_affine_rank if part_levels else None, "follower": follower if part_levels else None}
+    case.update(rt)
+    return case
